@@ -239,8 +239,8 @@ def run_ops(ctx, report):
         report.add(ob)
 
 
-def run_complete(ctx, report):
-    for name, spec in [('full-module/variant%d' % v, scen.full_module(v)) for v in (0, 1, 2)] + [('gc/' + n, mk()) for n, mk in c06.SCENARIOS]:
+def run_complete(ctx, report, extra=()):
+    for name, spec in [('full-module/variant%d' % v, scen.full_module(v)) for v in (0, 1, 2)] + [('gc/' + n, mk()) for n, mk in c06.SCENARIOS] + list(extra):
         ob = common.Obligation('O5.5:' + name, 'the valid description %s is accepted: no Err and no panic path of Module::parse' % name)
         try:
             I, P = pc.new_pipeline(ctx)
@@ -267,11 +267,15 @@ def run(tier, seed, only=None):
         run_features(ctx, report)
         run_gate(ctx, report, scen.full_module(0), 'full-module/variant0')
         run_unsupported(ctx, report)
-        run_complete(ctx, report)
+        run_complete(ctx, report, gl)
+        for n, sp in gl[:2 if tier == 'quick' else 12]:
+            run_gate(ctx, report, sp, n)
+    from obligations import gen
+    gl = gen.generated(tier, seed)
     engine.run_in_big_stack(go)
     report.queries += len(report.obligations)
     report.bounds = {'operators': 'all non-control operators of the feature set, immediates symbolic (O5.3)', 'gate': 'one rejection injected at each validator call position of the full-module description (O5.2)',
-                     'unsupported': '9 payload kinds (O5.4)', 'completeness': '7 valid descriptions (O5.5)'}
+                     'unsupported': '9 payload kinds (O5.4)', 'completeness': '7 valid descriptions (O5.5) + ' + gen.bounds_text(tier, len(gl)) + '; the gate obligation O5.2 also on the first %d of them' % (2 if tier == 'quick' else 12)}
     report.assumptions = ['NOT claimed: totality / soundness on arbitrary byte strings (wasmparser\'s parser and validator are not encoded); the claim is the walrus-side mechanism that the property\'s anchors name',
                           'validator contracts: rejects unknown sections; accepts the valid descriptions']
     report.samples = [o.as_json() for o in report.obligations[:3]]
